@@ -352,7 +352,10 @@ def symbolic_run(scenario, cfg, tier, *, max_paths=400, obl_timeout_ms=None, val
     out["assumptions"] = list(dict.fromkeys(c.assumption_notes))
     out["notes"].extend(c.notes)
     out["budget_hit"] = bool(getattr(c, "budget_hit", False))
-    out["deadline_hit"] = bool(getattr(c, "deadline_hit", False))
+    from symx.ctx import soft_deadline_passed
+    # (also when the deadline passed in the middle of the last path: its undecided obligations are `unknown`, and a path
+    # whose feasibility was not established must not be read as "no feasible path")
+    out["deadline_hit"] = bool(getattr(c, "deadline_hit", False)) or soft_deadline_passed()
     out["wall"] = time.time() - t_start
     return out
 
